@@ -1,3 +1,4 @@
 import DracoModel.Basic
 import DracoModel.Varint
 import DracoModel.BitBuf
+import DracoModel.Proto
